@@ -1,4 +1,502 @@
-import StreamzVerif.Model.Graph
+import StreamzVerif.Proofs.Metadata
+import StreamzVerif.Props.C01
+/-
+C10 — metadata travels with exactly the data it describes.
+
+  "The metadata delivered with each element is a flat list of dictionaries consisting of exactly the metadata
+   entries of the input elements that contributed to that output: one-to-one nodes pass it unchanged, batching
+   and combining nodes pass the concatenation for the members of the batch or tuple in member order, a
+   one-to-many node attaches it to the last piece, and elements emitted without metadata contribute nothing."
+
+Shape.  `Meta = List MEntry`: in the model every metadata value is a flat list of entries *by typing*, so the
+"flat list of dictionaries" clause holds by construction here; that the *implementation* hands a flat `list` of
+`dict` to every downstream is checked by the correspondence harness on every recorded element.
+
+How the theorems fit together.  `Props/C01.lean` proves that in a DAG every node's emissions are exactly what its
+node-local `upd` produces on its arrivals (`emits_are_local_outputs` / `run_is_localRun`) and that what arrives
+along an edge is what the upstream emitted, metadata included (`edge_consistency`, `arrival_has_cause`).  C10
+therefore reduces to per-kind statements about `upd` / `localRun` (sections 1-5, for ALL arrival lists and all
+states satisfying the stated buffer invariants) plus graph-level corollaries (section 6), of which
+`tags_come_from_input` holds for every graph (cyclic or not), every fuel and every session, failing runs
+included.
+
+`packMd ms = (tuple of the members' values, concatenation of the members' metadata in member order)`.
+-/
 namespace StreamzVerif.Graph
-theorem placeholder_C10 : True := trivial
+
+variable (G : NodeId → Kind)
+
+/-! ### 1. One-to-one kinds pass metadata unchanged -/
+
+/-- `source`, `union`, `map`, `starmap`, `filter`, `accumulate`, `slice`, `unique`, `pluck`: one `update` emits
+nothing, or exactly one element that carries exactly the metadata of the arrival. -/
+theorem oneToOne_passes_metadata {k : Kind} (hk : k.oneToOne = true) (s : NState) (who : NodeId) (x : Val)
+    (md : Meta) :
+    outsOf (upd k s who x md).effs = [] ∨ ∃ y, outsOf (upd k s who x md).effs = [(y, md)] :=
+  upd_oneToOne hk s who x md
+
+/-- Over any arrival list, from any state: the metadata sequence of the outputs is a sub-sequence of the
+metadata sequence of the arrivals — unchanged, in order, none duplicated, none invented. -/
+theorem oneToOne_run_metadata {k : Kind} (hk : k.oneToOne = true) (s : NState) (as : List Arr) :
+    ((localRun k s as).2.map (·.2)).Sublist (as.map (·.2.2)) :=
+  localRun_oneToOne_sublist hk s as
+
+/-- `source` / `union` forward the element with its metadata. -/
+theorem source_union_metadata (s : NState) (who : NodeId) (x : Val) (md : Meta) :
+    outsOf (upd .source s who x md).effs = [(x, md)] ∧ outsOf (upd .union s who x md).effs = [(x, md)] :=
+  ⟨rfl, rfl⟩
+
+/-- `map`: the image carries the metadata of its pre-image (nothing is emitted when the function raises). -/
+theorem map_metadata (f : Fn) (s : NState) (who : NodeId) (x : Val) (md : Meta) :
+    outsOf (upd (.map f) s who x md).effs = match f.eval x with | .ok y => [(y, md)] | .error _ => [] :=
+  map_outs f s who x md
+
+theorem starmap_metadata (f : Fn) (s : NState) (who : NodeId) (l : List Val) (md : Meta) :
+    outsOf (upd (.starmap f) s who (.tup l) md).effs =
+      match f.eval (.tup l) with | .ok y => [(y, md)] | .error _ => [] :=
+  starmap_outs f s who l md
+
+/-- `filter`, when it emits: the element with its own metadata. -/
+theorem filter_metadata (p : Fn) (s : NState) (who : NodeId) (x : Val) (md : Meta) :
+    outsOf (upd (.filter p) s who x md).effs =
+      match p.eval x with | .ok b => if b.truthy then [(x, md)] else [] | .error _ => [] :=
+  filter_outs p s who x md
+
+/-- `accumulate`, every combination of `start`, `returns_state`, `with_state`: unless the body raises, exactly
+one element is emitted and it carries exactly the arrival's metadata. -/
+theorem accumulate_metadata (f : Fn2) (start : Option Val) (rs ws : Bool) (s : NState) (who : NodeId) (x : Val)
+    (md : Meta) :
+    ((upd (.accumulate f start rs ws) s who x md).err ≠ none ∧
+        outsOf (upd (.accumulate f start rs ws) s who x md).effs = []) ∨
+    ((upd (.accumulate f start rs ws) s who x md).err = none ∧
+        ∃ y, outsOf (upd (.accumulate f start rs ws) s who x md).effs = [(y, md)]) :=
+  accumulate_outs f start rs ws s who x md
+
+/-- `slice`, when the element is selected. -/
+theorem slice_metadata (start : Nat) (stop : Option Nat) (step : Nat) (s : NState) (who : NodeId) (x : Val)
+    (md : Meta) :
+    outsOf (upd (.slice start stop step) s who x md).effs =
+      if s.cnt ≥ start ∧ (s.cnt - start) % step = 0 then [(x, md)] else [] :=
+  slice_outs start stop step s who x md
+
+/-- `unique`, when the element is new. -/
+theorem unique_metadata (maxsize : Option Nat) (key : Fn) (hashable : Bool) (s : NState) (who : NodeId) (x : Val)
+    (md : Meta) :
+    outsOf (upd (.unique maxsize key hashable) s who x md).effs =
+      match key.eval x with
+      | .ok y => if (hashable && !y.hashable) || s.seen.contains y then [] else [(x, md)]
+      | .error _ => [] :=
+  unique_outs maxsize key hashable s who x md
+
+theorem pluck_metadata (s : NState) (who : NodeId) (x : Val) (md : Meta) :
+    (∀ i, outsOf (upd (.pluck (.idx i)) s who x md).effs =
+      match pluckOne x i with | .ok v => [(v, md)] | .error _ => []) ∧
+    (∀ l, outsOf (upd (.pluck (.idxs l)) s who x md).effs =
+      match l.mapM (pluckOne x) with | .ok vs => [(.tup vs, md)] | .error _ => []) :=
+  ⟨fun i => pluck_idx_outs i s who x md, fun l => pluck_idxs_outs l s who x md⟩
+
+/-! ### 2. `flatten` (one-to-many): the metadata goes to the last piece -/
+
+/-- Piece number `i` of the iterable `l` carries the arrival's metadata if it is the last piece and no metadata
+otherwise; there are exactly `l.length` pieces (so an empty iterable emits nothing at all). -/
+theorem flatten_metadata (s : NState) (who : NodeId) (x : Val) (md : Meta) (l : List Val)
+    (h : iterVal x = .ok l) :
+    (outsOf (upd .flatten s who x md).effs).length = l.length ∧
+    ∀ i (hi : i < l.length),
+      (outsOf (upd .flatten s who x md).effs)[i]? = some (l[i], if i + 1 = l.length then md else []) := by
+  refine ⟨?_, fun i hi => flatten_piece_get s who x md l h i hi⟩
+  rw [flatten_outs, h]
+  simp [lastOnly_length]
+
+/-- Nothing lost, nothing duplicated: the concatenation of the pieces' metadata is the arrival's metadata. -/
+theorem flatten_total_metadata (s : NState) (who : NodeId) (x : Val) (md : Meta) (l : List Val)
+    (h : iterVal x = .ok l) (hne : l ≠ []) :
+    ((outsOf (upd .flatten s who x md).effs).map (·.2)).flatten = md := by
+  rw [flatten_outs, h]
+  simp only []
+  have : (l.zip (lastOnly l.length md)).map (·.2) = lastOnly l.length md :=
+    List.map_snd_zip (by rw [lastOnly_length]; exact Nat.le_refl _)
+  rw [this]
+  exact lastOnly_flatten _ _ (by intro h0; exact hne (List.length_eq_zero_iff.1 h0))
+
+/-! ### 3. Batching kinds: concatenation over the members, in member order -/
+
+/-- `partition(n, key)`, over any arrival list and from any buffer content: every emitted batch is
+`packMd ms` for a list `ms` of exactly `n` (value, metadata) members drawn — in arrival order, each at most
+once — from the buffered elements followed by the arrivals.  The tuple and its metadata are built from the
+*same* members in the same order; and the buffer (`items`, the state invariant) always holds a sub-sequence, in
+arrival order, of what was buffered or arrived. -/
+theorem partition_metadata (n : Nat) (key : Option Fn) (s : NState) (as : List Arr) :
+    ((localRun (.partition n key) s as).1.items.map (·.2)).Sublist (s.items.map (·.2) ++ as.map (·.2)) ∧
+    ∀ o ∈ (localRun (.partition n key) s as).2,
+      ∃ ms, ms.Sublist (s.items.map (·.2) ++ as.map (·.2)) ∧ ms.length = n ∧ o = packMd ms :=
+  (partition_bufStep n key).localRun s as
+
+/-- One `partition.update`, exactly: the members of the emitted batch are the buffered elements with the
+arrival's key, oldest first, then the arrival. -/
+theorem partition_update (n : Nat) (key : Option Fn) (s : NState) (who : NodeId) (x : Val) (md : Meta) :
+    stepLoc (.partition n key) s (who, x, md) =
+      match partKeyOf key x with
+      | .error _ => (s, [])
+      | .ok ky =>
+        if ky.hashable then
+          if ((s.items ++ [(ky, x, md)]).filter (fun it => it.1 = ky)).length = n then
+            ({ s with items := (s.items ++ [(ky, x, md)]).filter (fun it => it.1 ≠ ky) },
+              [packMd (((s.items ++ [(ky, x, md)]).filter (fun it => it.1 = ky)).map (·.2))])
+          else ({ s with items := s.items ++ [(ky, x, md)] }, [])
+        else (s, []) :=
+  partition_step n key s who x md
+
+/-- `partition(n)` without a key: the outputs are exactly the consecutive chunks of `n` arrivals, each carrying
+the concatenation of its members' metadata in arrival order. -/
+theorem partition_nokey_chunks (n : Nat) (s : NState) (hs : ∀ it ∈ s.items, it.1 = Val.none) (as : List Arr) :
+    (localRun (.partition n none) s as).2 = (chunksFrom n (s.items.map (·.2)) (as.map (·.2))).map packMd :=
+  partition_nokey_outputs n s hs as
+
+/-- `partition_unique(n, key, keep)`: every emitted batch is `packMd ms` for `n` members drawn in order from
+the buffer and the arrivals.  An element that was dropped (`keep = "first"`, key already buffered) or replaced
+(`keep = "last"`) is not a member of the tuple and contributes no metadata: tuple and metadata come from the same
+member list. -/
+theorem partitionUnique_metadata (n : Nat) (key : Fn) (keepLast : Bool) (s : NState) (as : List Arr) :
+    ((localRun (.partitionUnique n key keepLast) s as).1.items.map (·.2)).Sublist
+      (s.items.map (·.2) ++ as.map (·.2)) ∧
+    ∀ o ∈ (localRun (.partitionUnique n key keepLast) s as).2,
+      ∃ ms, ms.Sublist (s.items.map (·.2) ++ as.map (·.2)) ∧ ms.length = n ∧ o = packMd ms :=
+  (partitionUnique_bufStep n key keepLast).localRun s as
+
+/-- One `partition_unique.update`, exactly (`puBuffer`: the buffer after the arrival — same-key element
+replaced and moved to the end with `keep = "last"`, arrival ignored with `keep = "first"`). -/
+theorem partitionUnique_update (n : Nat) (key : Fn) (keepLast : Bool) (s : NState) (who : NodeId) (x : Val)
+    (md : Meta) :
+    stepLoc (.partitionUnique n key keepLast) s (who, x, md) =
+      match key.eval x with
+      | .error _ => (s, [])
+      | .ok ky =>
+        if ky.hashable then
+          if (puBuffer keepLast s.items ky x md).length = n then
+            ({ s with items := [] }, [packMd ((puBuffer keepLast s.items ky x md).map (·.2))])
+          else ({ s with items := puBuffer keepLast s.items ky x md }, [])
+        else (s, []) :=
+  partitionUnique_step n key keepLast s who x md
+
+/-- `collect` caches every arrival with its metadata and emits nothing; `flush()` then emits one batch of
+everything cached (before and during the run) whose metadata is the concatenation of the members' metadata in
+arrival order, and empties the cache. -/
+theorem collect_flush_metadata (s : NState) (as : List Arr) :
+    (localRun .collect s as).2 = [] ∧
+    outsOf (flushProg (localRun .collect s as).1) = [packMd (s.items.map (·.2) ++ as.map (·.2))] ∧
+    (finalLoc (flushProg (localRun .collect s as).1) (localRun .collect s as).1).items = [] := by
+  refine ⟨by rw [collect_localRun], collect_flush s as, ?_⟩
+  rw [(flush_outs _).2]
+
+/-- `sliding_window(n, return_partial)`, over any arrival list in runs without downstream failures
+(`localRun`).  State invariant `SWInv n s L`: the value deque `win` and the metadata deque `items` describe the
+same member list `L`, the metadata deque holding the metadata of all members or lagging by the head that is
+released after a full window was emitted.  Under it every emitted window is `packMd` of the last `n` elements of
+the history: tuple metadata = concatenation of exactly the window members' metadata, oldest first; and the
+invariant is re-established. -/
+theorem slidingWindow_metadata (n : Nat) (part : Bool) (s : NState) (hist : List (Val × Meta))
+    (h : SWInv n s (lastN n hist)) (as : List Arr) :
+    SWInv n (localRun (.slidingWindow n part) s as).1 (lastN n (hist ++ as.map (·.2))) ∧
+    (localRun (.slidingWindow n part) s as).2 = swSpec n part hist (as.map (·.2)) :=
+  slidingWindow_localRun n part s hist h as
+
+/-- ... in particular from a fresh node. -/
+theorem slidingWindow_metadata_fresh (n : Nat) (part : Bool) (s : NState) (hw : s.win = []) (hi : s.items = [])
+    (as : List Arr) :
+    (localRun (.slidingWindow n part) s as).2 = swSpec n part [] (as.map (·.2)) :=
+  (slidingWindow_localRun n part s [] (by simpa [lastN] using SWInv.init n s hw hi) as).2
+
+/-- ... and after a downstream failure: if the emission of a window raises, `update` is abandoned after its first
+state write (the `popleft` of the metadata deque is skipped); the state left behind still satisfies the invariant,
+so by `slidingWindow_metadata` all later windows carry exactly their members' metadata as well. -/
+theorem slidingWindow_metadata_after_failure (n : Nat) (part : Bool) (s : NState) (L : List (Val × Meta))
+    (h : SWInv n s L) (who : NodeId) (x : Val) (md : Meta) :
+    SWInv n (finalLoc ((upd (.slidingWindow n part) s who x md).effs.take 2) s) (lastN n (L ++ [(x, md)])) :=
+  slidingWindow_interrupted n part s L h who x md
+
+/-! ### 4. Combining kinds -/
+
+/-- `zip(*upstreams, literals)`, over any arrival list.  Under the buffer invariant `ZipInv` (aligned FIFO
+queues: upstream `u`'s buffer is its history `H u` minus the `e` rows already emitted) the outputs are, in order,
+rows `e, e+1, …` of the histories: output number `j` is the tuple of the `j`-th element of every upstream (with
+the literals spliced in) and its metadata is the concatenation, in upstream order, of those elements' metadata;
+literals contribute nothing. -/
+theorem zip_metadata (lits : List (Nat × Val)) (s : NState) (H : NodeId → List (Val × Meta)) (e : Nat)
+    (h : ZipInv s H e) (as : List Arr) :
+    ZipInv (localRun (.zip lits) s as).1 (fun u => H u ++ seqOf u as)
+      (e + (localRun (.zip lits) s as).2.length) ∧
+    (localRun (.zip lits) s as).2 =
+      (List.range' e (localRun (.zip lits) s as).2.length).map
+        (zipRowOf lits s.ups (fun u => H u ++ seqOf u as)) :=
+  zip_localRun lits s H e h as
+
+/-- ... in particular for a freshly built `zip` node: output `j` is row `j` of what arrived. -/
+theorem zip_metadata_fresh (lits : List (Nat × Val)) (s : NState) (h : s.bufs = s.ups.map (fun u => (u, [])))
+    (as : List Arr) :
+    (localRun (.zip lits) s as).2 =
+      (List.range (localRun (.zip lits) s as).2.length).map (zipRowOf lits s.ups (fun u => seqOf u as)) := by
+  have := (zip_localRun lits s (fun _ => []) 0 (ZipInv.init s h) as).2
+  simpa [List.range_eq_range'] using this
+
+/-- `combine_latest`, over any arrival list: every output is emitted right after some arrival `a` and is
+`packMd` of the table of the latest element per upstream at that moment: tuple metadata = concatenation of the
+latest metadata per upstream, in upstream order. -/
+theorem combineLatest_metadata (eo : Option (List NodeId)) (s : NState) (T : List (Val × Meta)) (h : CLInv s T)
+    (as : List Arr) :
+    CLInv (localRun (.combineLatest eo) s as).1 (latestTable s.ups T as) ∧
+    ∀ o ∈ (localRun (.combineLatest eo) s as).2, ∃ pre a post, as = pre ++ a :: post ∧
+      o = packMd (latestTable s.ups T (pre ++ [a])) :=
+  combineLatest_localRun eo s T h as
+
+/-- The table really is "latest per upstream": slot `i` (the position of upstream `u`) holds the last element
+that arrived from `u`, else its initial content. -/
+theorem latestTable_is_latest (ups : List NodeId) (T : List (Val × Meta)) (as : List Arr) (u : NodeId) (i : Nat)
+    (hi : idxOf ups u = some i) (hlt : i < T.length) :
+    (latestTable ups T as)[i]? = (seqOf u as).getLast?.or T[i]? :=
+  latestTable_get ups T as u i hi hlt
+
+/-- One `combine_latest.update`, exactly (when it emits and what). -/
+theorem combineLatest_update (eo : Option (List NodeId)) (s : NState) (T : List (Val × Meta)) (h : CLInv s T)
+    (a : Arr) :
+    (stepLoc (.combineLatest eo) s a).2 =
+      match idxOf s.ups a.1 with
+      | none => []
+      | some _ =>
+        if (s.missing.filter (· ≠ a.1)).isEmpty ∧ s.emitOn.contains a.1 then [packMd (tableStep s.ups T a)]
+        else [] :=
+  (combineLatest_step eo s T h a).2.2
+
+/-- `zip_latest`, over any arrival list: every output is emitted right after some arrival `a` for one element
+`q` of the lossless upstream (number 0; buffered before the run or arrived up to `a`) and is `packMd` of the
+latest-per-upstream table with slot 0 holding `q`: tuple metadata = `q`'s metadata first, then the latest
+metadata of the other upstreams in upstream order.  (`T0` may differ from the node's own table in slot 0.) -/
+theorem zipLatest_metadata (s : NState) (T Q T0 : List (Val × Meta)) (h : ZLInv s T Q)
+    (ht : T.tail = T0.tail) (hlen : T.length = T0.length) (as : List Arr) :
+    ∀ o ∈ (localRun .zipLatest s as).2, ∃ q pre a post, as = pre ++ a :: post ∧
+      (q ∈ Q ∨ ∃ b ∈ pre ++ [a], idxOf s.ups b.1 = some 0 ∧ q = b.2) ∧
+      o = packMd ((latestTable s.ups T0 (pre ++ [a])).set 0 q) :=
+  zipLatest_localRun s T Q T0 h ht hlen as
+
+/-- "first, then the others": with slot 0 set to `q`, the packed metadata is `q`'s followed by the rest. -/
+theorem zipLatest_lossless_first (T : List (Val × Meta)) (hT : T ≠ []) (q : Val × Meta) :
+    (packMd (T.set 0 q)).2 = q.2 ++ (T.tail.map (·.2)).flatten := by
+  cases T with
+  | nil => exact absurd rfl hT
+  | cons t ts => simp [packMd]
+
+/-! ### 5. Elements emitted without metadata contribute nothing -/
+
+/-- Uniform corollary, every kind, any arrival list: if the node stores no metadata and every arrival comes
+without metadata, every output has empty metadata (and the node still stores none). -/
+theorem no_metadata_in_no_metadata_out (k : Kind) (s : NState) (as : List Arr)
+    (hs : ∀ l ∈ s.storedMds, l = []) (has : ∀ a ∈ as, a.2.2 = []) :
+    (∀ o ∈ (localRun k s as).2, o.2 = []) ∧ ∀ l ∈ (localRun k s as).1.storedMds, l = [] := by
+  have := localRun_from (P := fun _ => False) k s as ((NState.allP_false_iff s).2 hs)
+    (fun a ha => by rw [has a ha]; exact AllMd.nil _)
+  exact ⟨fun o ho => allMd_false (this.2 o ho), (NState.allP_false_iff _).1 this.1⟩
+
+/-- A member without metadata adds nothing to the batch's metadata (and its neighbours' entries stay in
+member order). -/
+theorem empty_member_contributes_nothing (pre post : List (Val × Meta)) (v : Val) :
+    (packMd (pre ++ (v, []) :: post)).2 = (packMd (pre ++ post)).2 := by
+  simp [packMd]
+
+/-- Whole sessions (any graph, any fuel, emissions / flushes / consumer completions in any order, failing
+actions included): if the pipeline starts without stored metadata and every emission comes without metadata,
+every metadata list that ever appears in the log — arrivals, emissions, consumer invocations — is empty. -/
+theorem no_metadata_session (fuel : Nat) (S : State) (acts : List Action)
+    (hS : ∀ j, ∀ l ∈ (S.loc j).storedMds, l = []) (ha : ∀ a ∈ acts, a.md = []) :
+    ∀ ev ∈ (runActs G fuel S acts).2,
+      match ev with
+      | .arrive _ _ _ md => md = []
+      | .emit _ _ md => md = []
+      | .sinkStart _ _ _ md => md = []
+      | _ => True := by
+  have h := (runActs_md_closed G (P := fun _ => False) fuel S acts
+    (fun j => (NState.allP_false_iff _).2 (hS j)) (fun a h => by rw [ha a h]; exact AllMd.nil _)).1
+  intro ev hev
+  have := h ev hev
+  cases ev <;> first | exact allMd_false this | trivial
+
+/-! ### 6. Graph level: metadata is never invented -/
+
+/-- In any successful run on a DAG, an emission of a one-to-one node other than the injected top-level one
+carries the metadata of an arrival at that node, which in turn is exactly what an upstream emitted along an
+existing edge. -/
+theorem oneToOne_emission_has_arrival {fuel : Nat} {n : NodeId} {v : Val} {md : Meta} {S : State}
+    (hA : Acyclic S) (he : (emitAt G fuel n v md S).err = none) (hc : (emitAt G fuel n v md S).carried = none)
+    {i : NodeId} {v' : Val} {md' : Meta} (hk : (G i).oneToOne = true)
+    (h : Ev.emit i v' md' ∈ (emitAt G fuel n v md S).log) :
+    (i = n ∧ v' = v ∧ md' = md) ∨
+    ∃ who x, Ev.arrive i who x md' ∈ (emitAt G fuel n v md S).log ∧ i ∈ S.downs who ∧
+      Ev.emit who x md' ∈ (emitAt G fuel n v md S).log := by
+  have h1 := mem_emitsOf.2 h
+  rw [emits_are_local_outputs G hA he hc i, List.mem_append] at h1
+  rcases h1 with h1 | h1
+  · split at h1
+    · next hn =>
+      simp only [List.mem_singleton, Prod.mk.injEq] at h1
+      exact Or.inl ⟨hn.symm, h1.1, h1.2⟩
+    · simp at h1
+  · obtain ⟨a, ha, e⟩ := localOuts_oneToOne G i hk _ _ _ h1
+    obtain ⟨who, x, m⟩ := a
+    simp only [] at e
+    subst e
+    have harr := mem_arrivalsAt.1 ha
+    obtain ⟨c1, c2⟩ := arrival_has_cause G hA he hc harr
+    exact Or.inr ⟨who, x, harr, c1, c2⟩
+
+/-- The per-kind theorems apply to every node of a DAG run: the emissions of node `i` in the log are exactly
+the outputs of its kind run in isolation over the arrivals the log shows at `i` (C01), so e.g. every emission of
+a `partition` node is `packMd` of `n` members drawn in order from its buffer and its arrivals in this run. -/
+theorem partition_emission_members {fuel : Nat} {e : NodeId} {v : Val} {md : Meta} {S : State}
+    (hA : Acyclic S) (he : (emitAt G fuel e v md S).err = none) (hc : (emitAt G fuel e v md S).carried = none)
+    {i : NodeId} {n : Nat} {key : Option Fn} (hk : G i = .partition n key) (hi : i ≠ e)
+    {v' : Val} {md' : Meta} (h : Ev.emit i v' md' ∈ (emitAt G fuel e v md S).log) :
+    ∃ ms, ms.Sublist ((S.loc i).items.map (·.2) ++ (arrivalsAt i (emitAt G fuel e v md S).log).map (·.2)) ∧
+      ms.length = n ∧ (v', md') = packMd ms := by
+  have h1 := mem_emitsOf.2 h
+  have h2 := congrArg Prod.snd (run_is_localRun G hA he hc i)
+  simp only [] at h2
+  rw [h2, if_neg (fun h' => hi h'.symm), List.nil_append, hk] at h1
+  exact (partition_metadata n key (S.loc i) _).2 _ h1
+
+/-- **No entry from nowhere**, single `_emit`, any graph (cyclic or not), any fuel, failing runs included:
+every metadata entry appearing anywhere in the log, or stored in any node afterwards, is an entry of the
+top-level emission's metadata or was stored in some node's state before. -/
+theorem entries_come_from_input_or_state (fuel : Nat) (n : NodeId) (v : Val) (md : Meta) (S : State) :
+    (∀ ev ∈ (emitAt G fuel n v md S).log,
+      ev.From (fun m => m ∈ md ∨ ∃ j, ∃ l ∈ (S.loc j).storedMds, m ∈ l)) ∧
+    ∀ j, ∀ l ∈ ((emitAt G fuel n v md S).st.loc j).storedMds, ∀ m ∈ l,
+      m ∈ md ∨ ∃ j, ∃ l ∈ (S.loc j).storedMds, m ∈ l := by
+  have h := interp_md_closed G (P := fun m => m ∈ md ∨ ∃ j, ∃ l ∈ (S.loc j).storedMds, m ∈ l) fuel
+    (.emit n v md) S (fun m hm => Or.inl hm)
+    (fun j => (NState.allP_iff _ _).2 (fun l hl m hm => Or.inr ⟨j, l, hl, hm⟩))
+  exact ⟨h.1, fun j l hl m hm => (NState.allP_iff _ _).1 (h.2 j) l hl m hm⟩
+
+/-- **`tags_come_from_input`**: for every pipeline (any graph), every session on it that starts without stored
+metadata (emissions with arbitrary metadata at arbitrary nodes, `collect.flush()`, asynchronous consumers
+finishing or failing, in any order; exceptions and fuel exhaustion included) and every event in the log: every
+entry — in particular every tag — of the metadata of every arrival, emission or consumer invocation is an entry
+of the metadata of one of the top-level emissions.  Nothing is invented, whatever is buffered in between. -/
+theorem tags_come_from_input (fuel : Nat) (S : State) (acts : List Action)
+    (hS : ∀ j, ∀ l ∈ (S.loc j).storedMds, l = []) :
+    ∀ ev ∈ (runActs G fuel S acts).2, ev.From (fun m => ∃ a ∈ acts, m ∈ a.md) :=
+  (runActs_md_closed G (P := fun m => ∃ a ∈ acts, m ∈ a.md) fuel S acts
+    (fun j => (NState.allP_iff _ _).2 (fun l hl => by rw [hS j l hl]; exact AllMd.nil _))
+    (fun a ha m hm => ⟨a, ha, hm⟩)).1
+
+/-- The same, spelled out for emissions and tags. -/
+theorem emitted_tags_come_from_input (fuel : Nat) (S : State) (acts : List Action)
+    (hS : ∀ j, ∀ l ∈ (S.loc j).storedMds, l = []) {i : NodeId} {v : Val} {md : Meta}
+    (h : Ev.emit i v md ∈ (runActs G fuel S acts).2) :
+    ∀ m ∈ md, ∃ n v0 md0, Action.emit n v0 md0 ∈ acts ∧ m ∈ md0 ∧ m.tag ∈ md0.map (·.tag) := by
+  intro m hm
+  obtain ⟨a, ha, hma⟩ := tags_come_from_input G fuel S acts hS _ h m hm
+  cases a with
+  | emit n v0 md0 => exact ⟨n, v0, md0, ha, hma, List.mem_map.2 ⟨m, hma, rfl⟩⟩
+  | flush d => simp [Action.md] at hma
+  | done t => simp [Action.md] at hma
+  | fail t => simp [Action.md] at hma
+
+/-! ### Non-vacuity: concrete instances -/
+
+/-- metadata entries used below -/
+def ma : MEntry := ⟨1, none⟩
+def mb : MEntry := ⟨2, some 0⟩
+def mc : MEntry := ⟨3, none⟩
+
+/-- `partition(2)` on arrivals with metadata `[a]`, `[b, c]` emits `[a, b, c]` -/
+example : (localRun (.partition 2 none) {} [(0, .int 1, [ma]), (0, .int 2, [mb, mc])]).2 =
+    [(.tup [.int 1, .int 2], [ma, mb, mc])] := by decide +kernel
+
+/-- ... an element without metadata in the middle contributes nothing -/
+example : (localRun (.partition 3 none) {} [(0, .int 1, [ma]), (0, .int 2, []), (0, .int 3, [mc])]).2 =
+    [(.tup [.int 1, .int 2, .int 3], [ma, mc])] := by decide +kernel
+
+/-- `flatten` of a 3-list: `[]`, `[]`, `md` -/
+example : outsOf (upd .flatten {} 0 (.lst [.int 1, .int 2, .int 3]) [ma, mb]).effs =
+    [(.int 1, []), (.int 2, []), (.int 3, [ma, mb])] := by decide +kernel
+
+/-- ... and of an empty list: nothing -/
+example : outsOf (upd .flatten {} 0 (.lst []) [ma]).effs = [] := by decide +kernel
+
+/-- one-to-one kinds: `map`, `filter` (drops the odd element together with its metadata), `accumulate` -/
+example : (localRun (.map .inc) {} [(0, .int 1, [ma]), (0, .int 2, []), (0, .int 3, [mb, mc])]).2 =
+    [(.int 2, [ma]), (.int 3, []), (.int 4, [mb, mc])] := by decide +kernel
+example : (localRun (.filter .isEven) {} [(0, .int 1, [ma]), (0, .int 2, [mb]), (0, .int 4, [mc])]).2 =
+    [(.int 2, [mb]), (.int 4, [mc])] := by decide +kernel
+example : (localRun (.accumulate .add none false false) {} [(0, .int 1, [ma]), (0, .int 2, [mb])]).2 =
+    [(.int 1, [ma]), (.int 3, [mb])] := by decide +kernel
+
+/-- `sliding_window(2)`: windows (1,2), (2,3) with metadata `[a, b]`, `[b, c]` -/
+example : (localRun (.slidingWindow 2 false) {}
+    [(0, .int 1, [ma]), (0, .int 2, [mb]), (0, .int 3, [mc])]).2 =
+    [(.tup [.int 1, .int 2], [ma, mb]), (.tup [.int 2, .int 3], [mb, mc])] := by decide +kernel
+/-- the hypothesis of `slidingWindow_metadata` holds for the fresh node, and the spec gives the same windows -/
+example : SWInv 2 {} (lastN 2 []) := SWInv.init 2 {} rfl rfl
+/-- the state a failed emission leaves behind (metadata deque full, head not popped) satisfies it too, and the next
+window still gets exactly its members' metadata -/
+example : SWInv 2 { win := [.int 1, .int 2], items := [(.none, .none, [ma]), (.none, .none, [mb])] }
+    [(.int 1, [ma]), (.int 2, [mb])] := ⟨rfl, Or.inl rfl, Nat.le_refl _⟩
+example : (localRun (.slidingWindow 2 false)
+    { win := [.int 1, .int 2], items := [(.none, .none, [ma]), (.none, .none, [mb])] } [(0, .int 3, [mc])]).2 =
+    [(.tup [.int 2, .int 3], [mb, mc])] := by decide +kernel
+example : swSpec 2 false [] [(.int 1, [ma]), (.int 2, [mb]), (.int 3, [mc])] =
+    [(.tup [.int 1, .int 2], [ma, mb]), (.tup [.int 2, .int 3], [mb, mc])] := by decide +kernel
+
+/-- `partition_unique(2, keep="last")`: 1 is replaced by 11 (same key mod 10), whose metadata replaces `[a]` -/
+example : (localRun (.partitionUnique 2 (.modk 10) true) {}
+    [(0, .int 1, [ma]), (0, .int 11, [mb]), (0, .int 2, [mc])]).2 =
+    [(.tup [.int 11, .int 2], [mb, mc])] := by decide +kernel
+/-- ... with `keep="first"` 11 is dropped and contributes nothing -/
+example : (localRun (.partitionUnique 2 (.modk 10) false) {}
+    [(0, .int 1, [ma]), (0, .int 11, [mb]), (0, .int 2, [mc])]).2 =
+    [(.tup [.int 1, .int 2], [ma, mc])] := by decide +kernel
+
+/-- `collect` then `flush` -/
+example : outsOf (flushProg (localRun .collect {} [(0, .int 1, [ma]), (0, .int 2, []), (0, .int 3, [mc])]).1) =
+    [(.tup [.int 1, .int 2, .int 3], [ma, mc])] := by decide +kernel
+
+/-- `zip` of upstreams 1 and 2 with a literal in the middle: upstream order, not arrival order -/
+def zipS : NState := { ups := [1, 2], bufs := [(1, []), (2, [])] }
+example : ZipInv zipS (fun _ => []) 0 := ZipInv.init zipS rfl
+example : (localRun (.zip [(1, .str "lit")]) zipS
+    [(2, .int 20, [mb]), (1, .int 10, [ma]), (1, .int 11, []), (2, .int 21, [mc])]).2 =
+    [(.tup [.int 10, .str "lit", .int 20], [ma, mb]), (.tup [.int 11, .str "lit", .int 21], [mc])] := by
+  decide +kernel
+
+/-- `combine_latest` of upstreams 1 and 2 -/
+def clS : NState := { ups := [1, 2], last := [.none, .none], lastMd := [[], []], missing := [1, 2], emitOn := [1, 2] }
+example : CLInv clS (clS.last.zip clS.lastMd) := CLInv.of_zip clS rfl
+example : (localRun (.combineLatest none) clS
+    [(1, .int 10, [ma]), (2, .int 20, [mb]), (1, .int 11, [mc]), (2, .int 21, [])]).2 =
+    [(.tup [.int 10, .int 20], [ma, mb]), (.tup [.int 11, .int 20], [mc, mb]), (.tup [.int 11, .int 21], [mc])] := by
+  decide +kernel
+
+/-- `zip_latest`: lossless upstream 1 first, then the latest of upstream 2 -/
+example : ZLInv clS (clS.last.zip clS.lastMd) [] := ⟨CLInv.of_zip clS rfl, rfl⟩
+example : (localRun .zipLatest clS
+    [(1, .int 10, [ma]), (1, .int 11, [mb]), (2, .int 20, [mc]), (2, .int 21, []), (1, .int 12, [ma])]).2 =
+    [(.tup [.int 10, .int 20], [ma, mc]), (.tup [.int 11, .int 20], [mb, mc]), (.tup [.int 12, .int 21], [ma])] := by
+  decide +kernel
+
+/-- a whole pipeline with fan-out and fan-in (`exG`/`exS` of `Props/C01.lean`: source 0 → map inc 1, map dbl 2,
+zip(1, 2) = 3 → sink 4): the hypotheses of the graph-level theorems hold, and the sink receives the zipped pair
+with the source's metadata once per contributing branch, in upstream order -/
+example : Acyclic exS ∧ (emitAt exG 100 0 (.int 5) [mb] exS).err = none ∧
+    (emitAt exG 100 0 (.int 5) [mb] exS).carried = none :=
+  ⟨exS_acyclic, by decide +kernel, by decide +kernel⟩
+example : arrivalsAt 4 (emitAt exG 100 0 (.int 5) [mb] exS).log = [(3, .tup [.int 6, .int 10], [mb, mb])] := by
+  decide +kernel
+example : ∀ j, ∀ l ∈ (exS.loc j).storedMds, l = [] := by
+  intro j l hl
+  unfold exS at hl
+  simp only [] at hl
+  split at hl <;> simp [NState.storedMds] at hl <;> simp [hl]
+/-- a session on it: two emissions; the second output's metadata comes from the second emission only -/
+example : emitsOf 3 (runActs exG 100 exS [.emit 0 (.int 5) [ma], .emit 0 (.int 6) [mc]]).2 =
+    [(.tup [.int 6, .int 10], [ma, ma]), (.tup [.int 7, .int 12], [mc, mc])] := by decide +kernel
+
 end StreamzVerif.Graph
